@@ -49,11 +49,52 @@ class Driver(object):
     def __init__(self):
         self.env = None
 
-    def consume_case(self, msgs, cuts):
+    def consume_case(self, msgs, cuts, precut=None, close_between=False):
         """msgs: [(dtag, body)] delivered on one channel; the byte stream is cut at `cuts`
-        and arrives one piece per sleep of the consuming call."""
+        and arrives one piece per sleep of the consuming call.  precut: an earlier session of
+        the SAME connection object ended that many bytes into a frame (the peer went away);
+        the session observed is the one after the application re-opened the connection."""
         from harness.core import coq_Z
-        rt, br, conn = vconn.open_connection()
+        err = None
+        if precut is None:
+            rt, br, conn = vconn.open_connection()
+        else:
+            from harness.broker import Broker
+            rt, br, conn = vconn.open_connection(do_open=False)
+            pre = Broker()
+            real_attach = rt.on_connect
+            state = {'n': 0}
+
+            def attach(sock):
+                state['n'] += 1
+                (pre.attach if state['n'] == 1 else real_attach)(sock)
+            rt.on_connect = attach
+            rt.idle_hooks.insert(0, pre.step)
+            conn.open()
+            old = pframe.marshal(spec.Basic.Deliver(consumer_tag='old', delivery_tag=9, exchange='',
+                                                    routing_key='k'), 1) + \
+                pframe.marshal(pheader.ContentHeader(body_size=5, properties=spec.Basic.Properties()), 1)
+            pre.push_bytes(old[:precut])
+            rt.advance(0.01)
+            pre.drop('eof')
+            rt.advance(0.05)
+            rt.idle_hooks.remove(pre.step)
+            try:
+                if close_between:
+                    conn.close()
+            except Exception:
+                pass
+            try:
+                conn.open()
+            except Exception as why:
+                err = 'reopen: %r' % (why,)
+        if err is not None:
+            cin = '(%s, %s)' % (coq_list(['(%s, %s)' % (coq_Z(d), coq_bytes(b)) for d, b in msgs]),
+                                coq_list([coq_nat(c) for c in sorted(set(cuts))]))
+            return dict(spec='consume', cin=cin, cobs='[]',
+                        meta=dict(kind='consume', msgs=[(d, b.hex()) for d, b in msgs], cuts=list(cuts),
+                                  precut=precut, close_between=close_between,
+                                  error=err, stream='', frames=[], tail='', malformed=False))
         ch = conn.channel(rpc_timeout=2)
         got = []
         ch.basic.consume(got.append, 'q', consumer_tag='t')
@@ -72,7 +113,6 @@ class Driver(object):
             if pending:
                 br.push_bytes(pending.pop(0))
         rt.idle_hooks.insert(0, feeder)
-        err = None
         try:
             for _ in range(len(chunks) + 6):
                 ch.process_data_events()
@@ -90,7 +130,7 @@ class Driver(object):
                          for m in got])
         return dict(spec='consume', cin=cin, cobs=cobs,
                     meta=dict(kind='consume', msgs=[(d, b.hex()) for d, b in msgs], cuts=cuts,
-                              error=err, stream='', frames=[], tail='', malformed=False))
+                              precut=precut, close_between=close_between, error=err, stream='', frames=[], tail='', malformed=False))
 
     def setup(self):
         if self.env:
@@ -130,6 +170,7 @@ class Driver(object):
         conn._io.data_in = b''
         del conn.exceptions[:]
         del rec[:]
+        conn.heartbeat._reads_since_check = 0
         sock = br.sock
         del sock.inbox[:]
         carries = []
@@ -137,7 +178,8 @@ class Driver(object):
             sock.peer_push(bytes(c))
             vrt.pump_all()
             carries.append(len(conn._io.data_in))
-        return list(rec), carries, bytes(conn._io.data_in), len(conn.exceptions)
+        return (list(rec), carries, bytes(conn._io.data_in), len(conn.exceptions),
+                conn.heartbeat._reads_since_check)
 
     def make_case(self, frames, tail, cuts, malformed=None):
         """frames: list of (chan, pamqp frame); tail: bytes; cuts: sorted
@@ -149,7 +191,7 @@ class Driver(object):
         cuts = sorted(set(k for k in cuts if 0 < k < len(stream)))
         chunks = [stream[a:b] for a, b in zip([0] + cuts, cuts + [len(stream)])]
         chunks = [c for c in chunks if c]
-        rec, carries, carry, nerr = self.run_chunks(chunks)
+        rec, carries, carry, nerr, reads = self.run_chunks(chunks)
         if malformed is None:
             fl = []
             for c, f in frames:
@@ -161,10 +203,11 @@ class Driver(object):
             sent = 'None'
         cin = ('{| ri_registered := [1%%N; 2%%N]; ri_chunks := %s; ri_sent := %s |}'
                % (coq_list([coq_bytes(c) for c in chunks]), sent))
-        cobs = ('{| ro_dispatched := %s; ro_carries := %s; ro_carry := %s; ro_errors := %d%%nat |}' % (
+        cobs = ('{| ro_dispatched := %s; ro_carries := %s; ro_carry := %s; ro_errors := %d%%nat; '
+                'ro_reads := %d%%nat |}' % (
             coq_list(['(%s, (%s, %s))' % (coq_N(c), coq_N(t), coq_bytes(p))
                       for c, t, p in rec]),
-            coq_list([coq_nat(n) for n in carries]), coq_bytes(carry), nerr))
+            coq_list([coq_nat(n) for n in carries]), coq_bytes(carry), nerr, reads))
         meta = dict(stream=stream.hex(), cuts=cuts,
                     frames=[(c, f.name) for c, f in frames],
                     tail=tail.hex(), malformed=malformed is not None)
@@ -285,12 +328,17 @@ class Driver(object):
             cuts = list(range(1, 400)) if mode < 0.15 else \
                 [rnd.randrange(1, 200) for _ in range(rnd.randrange(1, 6))]
             out.append(self.consume_case(msgs, cuts))
+        # the same, on a connection object whose previous session was cut off inside a frame
+        for k in ([1, 7, 11, 25, 40] if tier == 'quick' else range(1, 45)):
+            out.append(self.consume_case(two, [rnd.randrange(1, n2)], precut=k,
+                                         close_between=bool(k % 2)))
         return out
 
     def replay_cases(self, doc):
         m = doc['case']
         if m.get('kind') == 'consume':
-            return [self.consume_case([(d, bytes.fromhex(b)) for d, b in m['msgs']], m['cuts'])]
+            return [self.consume_case([(d, bytes.fromhex(b)) for d, b in m['msgs']], m['cuts'],
+                                      precut=m.get('precut'), close_between=m.get('close_between', False))]
         if m.get('malformed'):
             return [self.make_case([], b'', m['cuts'],
                                    malformed=bytes.fromhex(m['stream']))]
